@@ -481,6 +481,29 @@ def check_recompute_charges_everything(eng, run):
     run.ob("C11.cycle", f"{fn.short}:every-return-charges-the-elapsed-time", not bad, returns=len(rets))
 
 
+def check_expiry_path_does_not_wait(eng, run):
+    """when the budget is used up the call reports it at once: in the blocking clients and endpoints, a handler of TimeoutError (the expiry
+    of the wait) calls nothing but exception constructors before it raises.  A look at the object's own state through a public
+    accessor (`self.fileno()`, `self.is_closed()`) goes through the send lock with no deadline: an expired receive then waits for
+    whoever is sending."""
+    n = 0
+    for fn in eng.db.all_functions():
+        if isinstance(fn.node, ast.Lambda) or fn.cls is None or not fn.module.name.startswith(("easynetwork.clients.tcp", "easynetwork.clients.udp", "easynetwork.lowlevel.api_sync.endpoints")):
+            continue
+        for t in [x for x in own_nodes(fn.node) if isinstance(x, ast.Try)]:
+            for h in t.handlers:
+                if h.type is None or "TimeoutError" not in ast.unparse(h.type):
+                    continue
+                n += 1
+                calls = [c for b in h.body for c in ast.walk(b) if isinstance(c, ast.Call)]
+                waits = [c for c in calls if isinstance(c.func, ast.Attribute) and isinstance(c.func.value, ast.Name) and c.func.value.id == fn.self_name]
+                for c in waits[:1]:
+                    run.finding("C11.thread", fn, h, f"the TimeoutError handler of {fn.name}() calls `{ast.unparse(c)[:40]}`: accessors of the client take its lock without a deadline, so a receive whose budget "
+                                "has expired (also timeout=0) blocks for as long as another thread is sending")
+                run.ob("C11.thread", f"{fn.short}:expiry-handler-does-not-wait", not waits)
+    run.count("timeout_handlers", n) if hasattr(run, "count") else None
+
+
 def run(eng, run):
     from sa.anchors import verify as _verify_anchor_names
     _verify_anchor_names(eng, run)
@@ -490,6 +513,7 @@ def run(eng, run):
     run.attempt(check_unbudgeted_locks, eng, run)
     run.attempt(check_zero_is_not_none, eng, run)
     run.attempt(check_one_clock, eng, run)
+    run.attempt(check_expiry_path_does_not_wait, eng, run)
     run.attempt(check_recompute_charges_everything, eng, run)
     run.attempt(check_infinite_wait_error, eng, run)
     # a send loop that stops making progress (an empty chunk that is never dropped) spins for ever, whatever the timeout
